@@ -700,4 +700,17 @@ example : (handleWrite (sample 10 4 [.took 3])).pending = [] := by decide
 example : (handleWrite { sample 10 4 [.took 4] with st := .kDisconnecting }).pending
     = [Task.writeComplete (bindCb wcBindDrain 1), Task.drainShutdownInLoop] := by decide
 
+/-- functors the connection queued for itself outlive it: after `ownerDestroy` the object is gone (`alive = false`)
+while the write-complete, the high-water and a foreign `sendInLoop` functor (all weak) are still pending; the next
+iteration reaches `runTask` with `alive = false` for each of them and takes the `t.hold = .weak` branch: nothing is
+recorded, nothing aborts (the `uaf` branch is what a raw `this` - or a trampoline that does not test the locked
+pointer, `Hold.eff` - would give) -/
+example :
+    let c := run (step { mark := 5 } .establish) [.envWrite (.took 3), .act false (.send ([7, 7, 7])),
+      .envWrite (.err 11), .act false (.send ([8, 8, 8, 8, 8, 8])), .act true (.send [1, 2, 3, 4, 5]), .ownerDestroy]
+    c.alive = false ∧ c.dead = false ∧
+    c.pending = [.writeComplete (bindCb wcBindSend 1), .highWater (bindCb hwmBind 1) 6, .sendInLoop [1, 2, 3, 4, 5]] ∧
+    (∀ t ∈ c.pending, t.strong = false ∧ t.hold = .weak) ∧
+    (iter c []).trace = c.trace ∧ (iter c []).dead = false ∧ (iter c []).pending = [] := by decide
+
 end MuduoVerif.Conn
